@@ -270,10 +270,19 @@ def refl_selftest(ctx, scratch):
         want = set(n for n in names if n.startswith("bad_"))
         if "lena.b" in es:
             want.discard("bad_subpackage_b")        # lena.b has been imported: it is an attribute of lena
+            want.discard("bad_guarded_submodule_b")
         if flagged != want:
             raise core.MachineryError("self-test tree, entries %s: the model flags %s, expected %s" % (
                 es, sorted(flagged), sorted(want)))
-        if via_refl != want - {"bad_literal"}:
+        # a chain through a submodule nothing imported, below a handler of AttributeError meant for something else:
+        # flagged by ChainsResolve although nothing is raised - the result differs between import states
+        swallowed = {"bad_guarded_submodule_b"}
+        rets = dict(((o["f"], o["arg"]), o.get("ret")) for o in p["drive"])
+        for fn in swallowed:
+            got = rets.get((fn, 1))
+            if got != ("2" if "lena.b" in es else "None"):
+                raise core.MachineryError("self-test tree, entries %s: %s(1) returned %s" % (es, fn, got))
+        if via_refl != want - {"bad_literal"} - swallowed:
             raise core.MachineryError("self-test tree: flagged through ReflectiveResolve: %s" % sorted(via_refl))
         failing = set()
         for o in p["drive"]:
@@ -281,7 +290,7 @@ def refl_selftest(ctx, scratch):
             if o["out"] == "exc" and (o.get("nameerror") or (o["cls"] == "AttributeError" and o["on"])
                                       or (o["cls"] == "KeyError" and o["where"])):
                 failing.add(o["f"])
-        if failing != want:
+        if failing != want - swallowed:
             raise core.MachineryError("self-test tree, entries %s: the interpreter fails in %s, the model flags %s" % (
                 es, sorted(failing), sorted(want)))
     ctx.extra["reflective_selftest"] = {
